@@ -159,6 +159,18 @@ func c13Oracle(in c13In) probe.Outcome {
 	if hdr != nil && *hdr != in.Host.Header {
 		return probe.Fail("header differs: %+v != %+v", *hdr, in.Host.Header)
 	}
+	for i := range got {
+		// an Encrypted payload in a plainly decoded chain is opaque; its next-payload octet is chain plumbing, not content
+		if got[i].Raw != nil && got[i].Raw.Type == 46 {
+			got[i].Data = nil
+		}
+	}
+	for _, p := range in.Host.Payloads {
+		if p.Raw != nil && p.Raw.Type == 46 {
+			labels = append(labels, "host-has-sk")
+			break
+		}
+	}
 	if d := model.DiffPayloads(in.Host.Payloads, got); d != "" {
 		return probe.Fail("decodes differently from the same message without the unsupported payloads: %s", d)
 	}
@@ -190,6 +202,22 @@ var c13Random = probe.Define("C13", "insert",
 		}
 		in.Critical = rapid.Bool().Draw(t, "critsupported")
 		in.Via = rapid.SampledFrom([]string{"message", "message", "container", "sk", "outer-sk"}).Draw(t, "via")
+		if (in.Via == "message" || in.Via == "container") && rapid.IntRange(0, 4).Draw(t, "host-sk") == 4 {
+			// the plainly decoded chain also carries an (opaque) Encrypted payload somewhere: the walker must follow the
+			// chain through it like through any other payload, so unsupported payloads behind it are still seen
+			sk := model.Payload{Kind: model.KRaw, Raw: &model.Raw{Type: 46, Body: gen.BytesLen(t, "skbody", 1, 80, 1, 16, 48)}}
+			at := rapid.IntRange(0, len(in.Host.Payloads)).Draw(t, "skpos")
+			ps := append([]model.Payload(nil), in.Host.Payloads[:at]...)
+			ps = append(ps, sk)
+			in.Host.Payloads = append(ps, in.Host.Payloads[at:]...)
+			if rapid.Bool().Draw(t, "behind-sk") {
+				for i := range in.Inserts {
+					if in.Inserts[i].Pos <= at {
+						in.Inserts[i].Pos = rapid.IntRange(at+1, len(in.Host.Payloads)).Draw(t, "pos-behind-sk")
+					}
+				}
+			}
+		}
 		return in
 	}, c13Oracle)
 
@@ -215,6 +243,15 @@ var c13CriticalSupported = probe.Define("C13", "critical-on-supported",
 var c13Table = probe.Define("C13", "table",
 	func(t *rapid.T) c13In { panic("table is enumerated, not drawn") }, c13Oracle)
 
+func c13HasSK(m model.Message) bool {
+	for _, p := range m.Payloads {
+		if p.Raw != nil && p.Raw.Type == 46 {
+			return true
+		}
+	}
+	return false
+}
+
 func c13Hosts() []model.Message {
 	h := model.Header{ISPI: 0x1122334455667788, RSPI: 0x99aabbccddeeff00, Major: 2, Exchange: 35, Flags: 0x08, MsgID: 7}
 	nonce := model.Payload{Kind: model.KNonce, Data: model.Bytes{1, 2, 3, 4, 5}}
@@ -224,6 +261,7 @@ func c13Hosts() []model.Message {
 		{Header: h},
 		{Header: h, Payloads: []model.Payload{nonce}},
 		{Header: h, Payloads: []model.Payload{ke, nonce, not}},
+		{Header: h, Payloads: []model.Payload{nonce, {Kind: model.KRaw, Raw: &model.Raw{Type: 46, Body: model.Bytes{1, 2, 3, 4, 5, 6, 7, 8}}}}},
 	}
 }
 
@@ -232,7 +270,7 @@ func TestC13(t *testing.T) {
 	// exhaustive single insertion: all 239 unsupported type codes x {front, middle, end} x both flags x hosts x {message, container}
 	for _, host := range c13Hosts() {
 		positions := map[int]bool{0: true, len(host.Payloads) / 2: true, len(host.Payloads): true}
-		if len(host.Payloads) == 3 {
+		if len(host.Payloads) == 3 || c13HasSK(host) {
 			positions[1], positions[2] = true, true
 		}
 		for ty := 1; ty <= 255; ty++ {
@@ -242,6 +280,9 @@ func TestC13(t *testing.T) {
 			for pos := range positions {
 				for _, crit := range []bool{false, true} {
 					for _, via := range []string{"message", "container", "sk", "outer-sk"} {
+						if (via == "sk" || via == "outer-sk") && c13HasSK(host) {
+							continue // an Encrypted payload inside an Encrypted payload is not a thing
+						}
 						in := c13In{Host: host, Via: via, Inserts: []c13Insert{{Pos: pos, Raw: model.Raw{Type: uint8(ty), Critical: crit, Body: model.Bytes{0xde, 0xad, byte(ty)}}}}}
 						if !c13Table.Eval(c, in) && c.Failures() > 3 {
 							goto done
